@@ -240,7 +240,7 @@ func (x *Exec) convert(v *Term, from, to types.Type) (*Term, error) {
 	case ts == c.Str:
 		return c.App("to_string_"+sanitize(v.Sort.Name), c.Str, v), nil
 	case ts == c.Slice && v.Sort == c.Str:
-		return nil, fmt.Errorf("string to slice conversion unsupported")
+		return nil, fmt.Errorf("string to slice conversion needs state")
 	}
 	return nil, fmt.Errorf("unsupported conversion %s -> %s", from, to)
 }
